@@ -190,6 +190,9 @@ def job_c14(job):
         phases = [list(phases[i]) for i in idx]
         for p in phases:
             rng.shuffle(p)
+    if job.get("as_iter"):
+        # one-shot iterables, which is what the Fortran generator passes (get_statements_in_ast)
+        phases = [iter(list(p)) for p in phases]
     buf = io.StringIO()
     try:
         with contextlib.redirect_stdout(buf):
